@@ -1055,6 +1055,14 @@ def tags(case, obs):
         if "err" in obs["outs"][obs["at"][0]]:
             t.append("probe-raises")
         t.append("reuse-dm" if case.get("reuse_dm") else "new-dm-per-call")
+        if _draws(case["spec"]):
+            n_ok = sum(1 for k in obs["at"] if "ok" in obs["outs"][k])
+            t.append("seeded-and-drawing:" + spec_name(case["spec"]).split("(")[0] + ":probe-ok-at-%s-positions" % ("3+" if n_ok >= 3 else n_ok))
+        hows = [p["pair"] for p in case["pool"] if isinstance(p, dict) and str(p.get("pair", "")).startswith("b:")]
+        if hows:
+            pi = [i for i, p in enumerate(case["pool"]) if "pair" in p]
+            both = all(any(i == j and "ok" in o for j, o in zip(obs["seq"], obs["outs"])) for i in pi)
+            t.append("same-labels-other-positions:" + hows[0][2:] + (":both-accepted" if both else ":not-both-accepted"))
         for o in obs["outs"]:
             if "err" in o:
                 t.append("exc:" + o["err"])
